@@ -379,7 +379,38 @@ func valResult(sv *api.SecretValue, err error) Result {
 }
 
 // DBTarget calls db.DB directly.
-type DBTarget struct{ D *db.DB }
+type DBTarget struct {
+	D *db.DB
+	// Keep, if non-nil, retains every *api.SecretInfo the database handed out together
+	// with a snapshot; Unchanged later reports any that was edited behind the caller's back.
+	Keep *Retained
+}
+
+type Retained struct {
+	infos []*api.SecretInfo
+	snaps []model.InfoM
+}
+
+func (r *Retained) add(in *api.SecretInfo) {
+	if r == nil || in == nil {
+		return
+	}
+	r.infos = append(r.infos, in)
+	r.snaps = append(r.snaps, infoOf(in))
+}
+
+// Unchanged returns "" if every retained result still equals what it was when returned.
+func (r *Retained) Unchanged() string {
+	if r == nil {
+		return ""
+	}
+	for i, in := range r.infos {
+		if now := infoOf(in); !infoEq(now, r.snaps[i]) {
+			return fmt.Sprintf("a result returned earlier (%+v) now reads %+v", r.snaps[i], now)
+		}
+	}
+	return ""
+}
 
 func (t DBTarget) Do(c CallerM, o Op, ver uint32) Result {
 	cl := c.DB()
@@ -414,6 +445,7 @@ func (t DBTarget) Do(c CallerM, o Op, ver uint32) Result {
 		if in != nil {
 			m := infoOf(in)
 			r.Info = &m
+			t.Keep.add(in)
 		}
 		return r
 	case "list":
@@ -421,6 +453,7 @@ func (t DBTarget) Do(c CallerM, o Op, ver uint32) Result {
 		r := Result{Class: classify(err), Err: errText(err), IsList: true}
 		for _, in := range ins {
 			r.List = append(r.List, infoOf(in))
+			t.Keep.add(in)
 		}
 		return r
 	}
@@ -564,7 +597,7 @@ func OpenDiscard(path string, key tink.AEAD) (*db.DB, error) {
 // ---------------------------------------------------------------- generators
 
 var BaseNames = []string{"a", "b", "dev/c"}
-var OddNames = []string{"", "_internal/x"}
+var OddNames = []string{"", "_internal/x", "a ", " dev/c"}
 var ValuePool = [][]byte{{}, []byte("x"), []byte("y"), []byte("zz"), nil}
 var vsels = []string{"zero", "active", "latest", "next", "existing", "existing", "deleted", "huge", "abs"}
 var opKindsMut = []string{"put", "put", "put", "activate", "activate", "delver", "delver", "del", "get", "getver", "cond", "info", "list"}
